@@ -47,6 +47,36 @@ def gen_kwargs(rng: random.Random, gen: str, r: int, c: int, constrained_bias: f
     return kw
 
 
+def arg_repr(rng: random.Random, gen: str, r: int, c: int, kw: dict) -> dict:
+    """How the caller spells the same legal arguments: the grid shape as an array of another integer type (the annotation
+    `Coord` asks for int8) or as a list/tuple where the generator converts it, the start cell as a caller-owned array that the
+    caller overwrites after the call (the finished maze must not alias the caller's buffers)."""
+    out: dict = {}
+    many_cells = r * c >= 128  # where a product computed in a narrow type would wrap
+    if rng.random() < (0.6 if many_cells else 0.25):
+        choices = ["int32", "int16"] + (["int8", "int8"] if max(r, c) <= 127 else []) + (["uint8"] if max(r, c) <= 255 else [])
+        if many_cells:
+            choices = [x for x in choices if x in ("int8", "uint8")] * 3 + choices
+        if gen != "gen_wilson":  # gen_wilson uses the shape as it is given (array arithmetic): arrays only
+            choices += ["list", "tuple"]
+        out["shape_repr"] = rng.choice(choices)
+    if "start_coord" in kw and rng.random() < 0.3:
+        out["start_repr"] = rng.choice(["int64-buffer", "int8-buffer", "tuple"])
+    return out
+
+
+def _shape_arg(spec):
+    r, c = spec["shape"]
+    rep = spec.get("shape_repr")
+    if rep in (None, "int64"):
+        return np.array([r, c])
+    if rep == "list":
+        return [r, c]
+    if rep == "tuple":
+        return (r, c)
+    return np.array([r, c], dtype=getattr(np, rep))
+
+
 LONG_SIDES = [126, 127, 128, 129, 130, 131, 200, 255, 256, 257, 300]
 
 
@@ -61,7 +91,9 @@ def gen_spec(rng: random.Random, seed: int, max_n: int, constrained_bias: float,
         if rng.random() < 0.5:
             r, c = c, r
         kw = gen_kwargs(rng, gen, r, c, constrained_bias)
-        return {"seed": seed, "gen": gen, "shape": [r, c], "kwargs": kw, "mode": "real" if gen == "gen_wilson" or rng.random() < 0.6 else "owned"}
+        spec = {"seed": seed, "gen": gen, "shape": [r, c], "kwargs": kw, "mode": "real" if gen == "gen_wilson" or rng.random() < 0.6 else "owned"}
+        spec.update(arg_repr(rng, gen, r, c, kw))
+        return spec
     if big:
         r = c = rng.choice([16, 20])
         if rng.random() < 0.5:
@@ -71,7 +103,9 @@ def gen_spec(rng: random.Random, seed: int, max_n: int, constrained_bias: float,
         c = rng.randint(1, max_n) if rng.random() < 0.6 else r
     kw = gen_kwargs(rng, gen, r, c, constrained_bias)
     mode = "owned" if rng.random() < 0.5 else "real"
-    return {"seed": seed, "gen": gen, "shape": [r, c], "kwargs": kw, "mode": mode}
+    spec = {"seed": seed, "gen": gen, "shape": [r, c], "kwargs": kw, "mode": mode}
+    spec.update(arg_repr(rng, gen, r, c, kw))
+    return spec
 
 
 class GenOutcome:
@@ -111,9 +145,23 @@ def execute(spec: dict, log: EventLog, extra=None) -> GenOutcome:
         )
         cm = sim
     out.sim = sim
+    shape_arg = _shape_arg(spec)
+    buf = None
+    if "start_coord" in kw and spec.get("start_repr"):
+        if spec["start_repr"] == "tuple":
+            kw["start_coord"] = tuple(kw["start_coord"])
+        else:
+            buf = np.array(kw["start_coord"], dtype=np.int8 if spec["start_repr"] == "int8-buffer" and max(kw["start_coord"]) <= 127 else np.int64)
+            kw["start_coord"] = buf
     with cm:
         try:
-            out.maze = GENERATORS_MAP[gen](np.array([r, c]), **kw)
+            out.maze = GENERATORS_MAP[gen](shape_arg, **kw)
+            # the caller re-uses its own buffers afterwards (next start cell, next grid): the returned maze and its metadata
+            # must not change with them
+            if buf is not None:
+                buf[:] = [(int(buf[0]) + 1) % max(r, 1), (int(buf[1]) + 1) % max(c, 1)]
+            if isinstance(shape_arg, np.ndarray):
+                shape_arg[:] = 1
         except DrawBudgetExceeded:
             out.budget_exceeded = True
         except Exception as e:  # noqa: BLE001 - classified by the oracle
@@ -157,6 +205,9 @@ def shrink_candidates(spec: dict, result: dict):
         kw = dict(spec["kwargs"])
         del kw[k]
         yield dict(spec, kwargs=kw)
+    for k in ("shape_repr", "start_repr"):
+        if k in spec:
+            yield {kk: vv for kk, vv in spec.items() if kk != k}
     draws = result.get("draws")
     if spec["mode"] in ("owned", "scripted") and draws:
         n = len(draws)
